@@ -152,10 +152,17 @@ def depends(res: "Result", rule: str, prog, tier: str, prop: str, accept=None, w
     import importlib
     cache = prog.__dict__.setdefault("_dep_cache", {})
     if (prop, tier) not in cache:
+        cache[(prop, tier)] = None      # in progress: a pack that (transitively) asks for itself gets nothing from the inner request
         scratch = Result(prop, prog)
-        importlib.import_module(f"{__package__}.rules.{prop.lower()}").run(prog, scratch, tier)
+        try:
+            importlib.import_module(f"{__package__}.rules.{prop.lower()}").run(prog, scratch, tier)
+        except BaseException:
+            del cache[(prop, tier)]
+            raise
         cache[(prop, tier)] = scratch
     n = 0
+    if cache[(prop, tier)] is None:
+        return 0
     for o in cache[(prop, tier)].obligations:
         if accept is None or accept(o):
             ob = res.add(rule, None, None, o.ok, f"[{o.rule}] {o.detail}", construct=o.construct, key=f"{o.rule}:{o.key}", where=o.where)
